@@ -828,6 +828,55 @@ class MapBlocksOp:
         return da.map_blocks(f, x, dtype=x.dtype)
 
 
+def _bw_double(x):
+    return x * 2
+
+
+def _red_chunk(x, axis=None, keepdims=False):
+    return np.sum(x, axis=axis, keepdims=keepdims)
+
+
+def _red_agg(x, axis=None, keepdims=False):
+    return np.sum(x, axis=axis, keepdims=keepdims)
+
+
+def _gu_mean(x):
+    return np.mean(x, axis=-1)
+
+
+fakes.FN_TABLE.update(bw_double=_bw_double, red_chunk=_red_chunk, red_agg=_red_agg, gu_mean=_gu_mean)
+
+
+@op("userfn", weight=0.0)
+class UserFnOp:
+    """blockwise / reduction / apply_gufunc with user functions (recording in C29)."""
+
+    @staticmethod
+    def gen(rng, ctx, ins):
+        x = ins[0]
+        if x.dtype.kind in "bc" or x.ndim == 0 or not known(x):
+            return None
+        kind = rng.choice(["blockwise", "reduction", "gufunc"])
+        a = {"kind": kind, "rec": ctx.rec_fns}
+        if kind == "reduction":
+            a["axis"] = rng.randrange(x.ndim)
+        return a
+
+    @staticmethod
+    def apply(env, ins, a):
+        da = _da()
+        x = ins[0]
+        rec = a.get("rec")
+        if a["kind"] == "blockwise":
+            ind = tuple(range(x.ndim))
+            return da.blockwise(get_fn(env, "bw_double", rec), ind, x, ind, dtype=x.dtype)
+        if a["kind"] == "reduction":
+            return da.reduction(x, chunk=get_fn(env, "red_chunk", rec), aggregate=get_fn(env, "red_agg", rec),
+                                axis=a["axis"], dtype=x.dtype)
+        xr = x.rechunk({x.ndim - 1: -1})
+        return da.apply_gufunc(get_fn(env, "gu_mean", rec), "(i)->()", xr, output_dtypes="f8")
+
+
 @op("pad", weight=0.6)
 class PadOp:
     @staticmethod
